@@ -18,6 +18,7 @@ from sklearn.decomposition import PCA
 from sklearn.dummy import DummyRegressor
 from sklearn.linear_model import LinearRegression, LogisticRegression, Ridge
 from sklearn.naive_bayes import GaussianNB
+from sklearn.pipeline import Pipeline
 from sklearn.preprocessing import KBinsDiscretizer, MinMaxScaler, StandardScaler
 from sklearn.tree import DecisionTreeClassifier, DecisionTreeRegressor
 
@@ -40,7 +41,7 @@ def col_first_two(X):
 FUNCTIONS = {"col_sum": col_sum, "col_first_two": col_first_two, "np.log1p": np.log1p, "np.expm1": np.expm1}
 
 SKLEARN = {c.__name__: c for c in [KMeans, PCA, DummyRegressor, LinearRegression, LogisticRegression, Ridge, GaussianNB,
-                                   KBinsDiscretizer, MinMaxScaler, StandardScaler, DecisionTreeClassifier, DecisionTreeRegressor]}
+                                   KBinsDiscretizer, MinMaxScaler, StandardScaler, DecisionTreeClassifier, DecisionTreeRegressor, Pipeline]}
 HARNESS = {c.__name__: c for c in [H.RecordingRegressor, H.RecordingClassifier, H.CentroidClassifier, H.FailingRegressor,
                                    H.FailingClassifier, H.FailingTransformer, H.FakeTSNE]}
 
@@ -88,6 +89,8 @@ def build_value(v):
         return tuple(v["tuple"])
     if isinstance(v, list) and v and all(is_spec(x) for x in v):
         return [build(x) for x in v]
+    if isinstance(v, list) and v and all(isinstance(x, list) and len(x) == 2 and isinstance(x[0], str) and is_spec(x[1]) for x in v):
+        return [(x[0], build(x[1])) for x in v]          # Pipeline steps
     return v
 
 
@@ -145,12 +148,16 @@ def s_regressor(draw, recording=False):
     return dict(cls=k, params=dict(tag=draw(st.integers(0, 3))))
 
 
-def s_classifier(draw, recording=False, linear_only=False):
+def s_classifier(draw, recording=False, linear_only=False, warm=False):
     pool = ["LogisticRegression", "DecisionTreeClassifier", "GaussianNB"] + (["RecordingClassifier"] if recording else [])
     if linear_only:
         pool = ["LogisticRegression"]
     k = draw(st.sampled_from(pool))
     if k == "LogisticRegression":
+        if warm and draw(st.integers(0, 3)) == 0:
+            # a warm-start capable model stopped early: its result depends on its previous state, so an estimator
+            # fitted in place instead of on a clone shows in the next fit
+            return dict(cls=k, params=dict(C=1.0, max_iter=3, warm_start=True))
         return dict(cls=k, params=dict(C=draw(st.sampled_from([0.5, 1.0, 4.0])), max_iter=300))
     if k == "DecisionTreeClassifier":
         return dict(cls=k, params=dict(max_depth=draw(st.integers(1, 3)), random_state=0))
@@ -230,11 +237,14 @@ def d_text(draw):
     return dict(kind="text", X=docs, y=None, w=None)
 
 
-def d_frame(draw):
+def d_frame(draw, vary_columns=False):
     n = draw(st.integers(2, 8))
     cats = ["a", "b", "c", "d"]
-    return dict(kind="frame", X=dict(c0=[draw(st.sampled_from(cats)) for _ in range(n)], c1=[draw(st.sampled_from(cats[:2])) for _ in range(n)],
-                                     num=[draw(st.integers(-8, 8)) / 2.0 for _ in range(n)]), y=None, w=None)
+    X = dict(c0=[draw(st.sampled_from(cats)) for _ in range(n)], c1=[draw(st.sampled_from(cats[:2])) for _ in range(n)],
+             num=[draw(st.integers(-8, 8)) / 2.0 for _ in range(n)])
+    if vary_columns and draw(st.booleans()):
+        del X["c1"]                      # a frame without the second categorical column
+    return dict(kind="frame", X=X, y=None, w=None)
 
 
 def d_ts(draw):
@@ -250,10 +260,12 @@ def materialize(data):
     if kind == "text":
         return list(data["X"]), None, None
     if kind == "frame":
-        df = pandas.DataFrame({"c0": pandas.Series(np.array(data["X"]["c0"], dtype=object), dtype=object),
-                               "c1": pandas.Series(np.array(data["X"]["c1"], dtype=object), dtype=object),
-                               "num": np.array(data["X"]["num"], dtype=np.float64)})
-        return df, None, None
+        cols = {}
+        for c in ("c0", "c1"):
+            if c in data["X"]:
+                cols[c] = pandas.Series(np.array(data["X"][c], dtype=object), dtype=object)
+        cols["num"] = np.array(data["X"]["num"], dtype=np.float64)
+        return pandas.DataFrame(cols), None, None
     X = np.array(data["X"], dtype=np.float64)
     y = None if data["y"] is None else np.array(data["y"])
     if y is not None and kind in ("reg", "ts", "target"):
@@ -438,7 +450,7 @@ class _PC(_PR):
     methods = ("predict", "predict_proba", "decision_function", "transform_bins")
 
     def spec(self, draw):
-        return dict(cls=self.name, params=dict(binner=self._binner(draw, clf=True), estimator=s_classifier(draw, recording=True),
+        return dict(cls=self.name, params=dict(binner=self._binner(draw, clf=True), estimator=s_classifier(draw, recording=True, warm=True),
                                                n_jobs=draw(st.sampled_from([None, 1, 2])), random_state=draw(st.one_of(st.none(), st.integers(0, 9)))))
 
     def available(self, est):
@@ -466,7 +478,7 @@ class _CAK(Entry):
     methods = ("predict", "predict_proba", "decision_function")
 
     def spec(self, draw):
-        return dict(cls=self.name, params=dict(estimator=s_classifier(draw), clus=s_kmeans(draw)))
+        return dict(cls=self.name, params=dict(estimator=s_classifier(draw, warm=True), clus=s_kmeans(draw)))
 
     def data(self, draw):
         return d_clf(draw, n_min=12, n_max=24)
@@ -485,7 +497,7 @@ class _DTLR(Entry):
     methods = ("predict", "predict_proba", "decision_path")
 
     def spec(self, draw):
-        return dict(cls=self.name, params=dict(estimator=s_classifier(draw, linear_only=draw(st.booleans())), max_depth=draw(st.integers(1, 4)),
+        return dict(cls=self.name, params=dict(estimator=s_classifier(draw, linear_only=draw(st.booleans()), warm=True), max_depth=draw(st.integers(1, 4)),
                                                min_samples_leaf=draw(st.integers(1, 3)), fit_improve_algo=draw(st.sampled_from(["auto", "none", "intercept_sort"])),
                                                gamma=draw(st.sampled_from([1.0, 2.0]))))
 
@@ -516,8 +528,12 @@ class _CTI(Entry):
 
     def spec(self, draw):
         remove = draw(st.sampled_from([None, None, ["c0=a"]]))
-        return dict(cls=self.name, params=dict(columns=draw(st.sampled_from([None, ["c0"], ["c0", "c1"]])), remove=remove,
+        return dict(cls=self.name, params=dict(columns=draw(st.sampled_from([None, None, ["c0"]])), remove=remove,
                                                skip_errors=True if remove else draw(st.booleans()), single=False if remove else draw(st.booleans())))
+
+
+    def data(self, draw):
+        return d_frame(draw, vary_columns=True)
 
 
 @register
@@ -587,7 +603,7 @@ class _TTC2(Entry):
         tr = draw(st.sampled_from(["permute", "obj"]))
         if tr == "obj":
             tr = dict(cls="PermutationReciprocalTransformer", params=dict(random_state=draw(st.integers(0, 20))))
-        return dict(cls=self.name, params=dict(classifier=s_classifier(draw), transformer=tr))
+        return dict(cls=self.name, params=dict(classifier=s_classifier(draw, warm=True), transformer=tr))
 
 
 @register
@@ -598,7 +614,15 @@ class _STL(Entry):
 
     def spec(self, draw, flavour=0):
         # model and method are interdependent (a transformer has no predict): both configurations of a case wrap the same kind
-        kind = "reg" if flavour % 2 == 0 else "tr"
+        kind = ["reg", "tr", "nested"][flavour % 3]
+        if kind == "nested":
+            # keys containing 'model__' twice: a pipeline with a step named 'model', or a learner wrapping a learner
+            inner = s_regressor(draw)
+            if draw(st.booleans()):
+                wrapped = dict(cls="Pipeline", params=dict(steps=[["scale", dict(cls="StandardScaler", params={})], ["model", inner]]))
+                return dict(cls=self.name, params=dict(model=wrapped, method=draw(st.sampled_from([None, "predict"]))))
+            wrapped = dict(cls="SkBaseTransformLearner", params=dict(model=inner, method="predict"))
+            return dict(cls=self.name, params=dict(model=wrapped, method=draw(st.sampled_from([None, "transform"]))))
         if kind == "reg":
             return dict(cls=self.name, params=dict(model=s_regressor(draw), method=draw(st.sampled_from([None, "predict", {"fn": "col_sum"}]))))
         return dict(cls=self.name, params=dict(model=s_transformer(draw), method=draw(st.sampled_from([None, "transform"]))))
